@@ -14,7 +14,7 @@ RULE = ("all ordered pairs (a,b) of same-class graphs with fully specified parit
         "MolGraphs n<=3 x all, labelled n=4 x class representatives (thorough: all 1.2M ordered labelled pairs n<=4), "
         "representatives x representatives for MolGraph n<=4 {C,H,O} (n=5 thorough), reaction graphs n<=3 with every role "
         "assignment, stereo stars / two-unit / stereo reaction universes; single-feature mutations of symmetric graphs up to "
-        "14 atoms; cross-class pairs; all 26 pairs of non-isomorphic graphs with <=7 vertices that 1-WL refinement cannot separate "
+        "14 atoms; two-unit graphs against copies written with hash-colliding identifiers; cross-class pairs; all 26 pairs of non-isomorphic graphs with <=7 vertices that 1-WL refinement cannot separate "
         "(from the Graph Atlas, re-validated at run time) x every renumbering (7 vertices: every 7th in quick) x {MolGraph, "
         "StereoMolGraph, explicit hydrogens}; class sequences (descriptors of different classes over identical atom tuples compared "
         "one after the other in one process, all 24 orderings, star and spiro bis-chelate skeletons).  Oracle: a==b must imply that a brute-force search finds a bijection preserving elements, "
@@ -67,6 +67,16 @@ def pools(tier):
     P["symmetric-reactions"] = (sr, sr)
     srs = [U.to_kind(g, SCRG) for g in sr]
     P["symmetric-reactions-SCRG"] = (srs[::3], srs)
+    # second graph written with identifiers whose Python hashes coincide (-1 / -2, k / k + 2^61 - 1), placed on every pair of atoms
+    # two positions apart in the identifier order (ring CH2 groups, geminal ligands, the two centres)
+    Pm = 2 ** 61 - 1
+    C = [-1, 5 + Pm, -2, 5, Pm, 0, 7, 7 + Pm, 11, 13, 17, 19, 23, 29]
+    col = []
+    for g in tu:
+        ids = list(g.atoms)
+        for r in range(len(ids)):
+            col.append(g.copy().relabel({ids[(i + r) % len(ids)]: C[i] for i in range(len(ids))}))
+    P["two-unit-colliding-ids"] = (tu, col)
     return P
 
 
